@@ -380,6 +380,9 @@ def gen_device(rng) -> dict:
     acl_names = [a["name"] for a in acls] + ["UNDEFINED"]
     for n in range(rng.randint(0, 5)):
         iname = rng.choice(["Ethernet1/", "GigabitEthernet0/0/", "Vlan", "port-channel"]) + str(n + 1)
+        if rng.random() < 0.15:  # headers that carry more than the name
+            iname = rng.choice([f"Serial0/0.{100 + n} point-to-point", f"Virtual-Template{n + 1} type tunnel",
+                                f"GigabitEthernet0/0/{n + 1}.20 l2transport", f"Serial0/1.{n + 1} multipoint"])
         binds = []
         roll = rng.random()
         if roll < 0.25:
